@@ -2,7 +2,12 @@ use crate::alloc::{format, Vec};
 use crate::error::MockError;
 use crate::{debug, MockFnInfo};
 
+#[cfg(not(unimock_verif))]
 use core::{fmt::Display, sync::atomic::AtomicUsize};
+#[cfg(unimock_verif)]
+use crate::verif::sync::AtomicUsize;
+#[cfg(unimock_verif)]
+use core::fmt::Display;
 
 pub(crate) struct CallCounter {
     actual_count: AtomicUsize,
@@ -111,7 +116,7 @@ impl CallCounter {
     /// (actual count, minimum, exactness code)
     pub(crate) fn verif_parts(&self) -> (usize, usize, u8) {
         (
-            self.actual_count.load(core::sync::atomic::Ordering::SeqCst),
+            self.actual_count.peek(),
             self.expectation.minimum,
             match self.expectation.exactness {
                 Exactness::Exact => 0,
